@@ -2,7 +2,8 @@
 (* The notations of C09 other than COMPONENTS OF (which has its own model, Linker.tla): a plain     *)
 (* product of parameters; the harness prints the sugared module and its hand-expanded twin.          *)
 (*   param       a parameterized type with 1..3 dummy parameters (each a type or a value),           *)
-(*               instantiated 1..3 times                                                             *)
+(*               instantiated 1..3 times; also with an instance of the same template as (part of) a   *)
+(*               type argument                                                                       *)
 (*   select      a selection type  a_i < Cho  of a CHOICE with 2..3 alternatives                     *)
 (*   classfield  an object-class field type naming a fixed-type field, as assignment / as component  *)
 (*   valref      a value reference inside a constraint (upper / lower bound, single value, SIZE,     *)
@@ -13,10 +14,19 @@
 EXTENDS Integers, Sequences, FiniteSets, TLC, Json
 VARIABLE x
 KindSeqs == UNION {[1..k -> {"type", "value"}] : k \in 1..3}
+ClassFieldHosts == {"set", "choice", "seqof", "setof", "nested_seq_in_setof", "seq_with_set_sibling", "seq_with_ext_choice_sibling",
+                    "choice_with_additions", "seq_with_constrained_siblings", "set_nested_in_choice"}
 Points ==
-    {[fam |-> "param", kinds |-> ks, ninst |-> n, early |-> e] : ks \in KindSeqs, n \in 1..3, e \in BOOLEAN}
+    {[fam |-> "param", kinds |-> ks, ninst |-> n, early |-> e, nest |-> "none"] : ks \in KindSeqs, n \in 1..3, e \in BOOLEAN}
+    \* the template inside its own actual parameter: as the type argument itself (Tpl { Tpl { .. } }), or inside a constructed
+    \* type argument (Tpl { SEQUENCE { x Tpl { .. } } }); expansion works from the inside out
+    \cup {[fam |-> "param", kinds |-> ks, ninst |-> 1, early |-> e, nest |-> ns] :
+              ks \in {k \in KindSeqs : \E i \in DOMAIN k : k[i] = "type"}, e \in BOOLEAN, ns \in {"self", "constructed"}}
     \cup {[fam |-> "select", nalts |-> n, sel |-> s, early |-> e] : n \in 2..3, s \in 1..3, e \in BOOLEAN}
-    \cup {[fam |-> "classfield", ascomp |-> c, early |-> e] : c \in BOOLEAN, e \in BOOLEAN}
+    \cup {[fam |-> "classfield", ascomp |-> c, early |-> e, host |-> "plain"] : c \in BOOLEAN, e \in BOOLEAN}
+    \* the field type in every position a type can stand in, next to siblings whose shape the expansion must leave alone:
+    \* a SET, an extensible CHOICE with additions, a constrained reference, a DEFAULT, a recursive OPTIONAL component
+    \cup {[fam |-> "classfield", ascomp |-> TRUE, early |-> e, host |-> h] : e \in BOOLEAN, h \in ClassFieldHosts}
     \cup {[fam |-> "valref", where |-> w, early |-> e] : w \in {"upper", "lower", "single", "size", "component", "reftype_default",
                                                                  \* the other end of the range is MIN / MAX (half-open), in a value and in a size range
                                                                  "upper_min", "lower_max", "size_max", "component_max"}, e \in BOOLEAN}
